@@ -240,6 +240,48 @@ def rule_merge_no_alias(ctx, rep):
         rep.check("R-MERGE-NO-ALIAS", q, fn.loc(), not problems, "fresh-containers", "; ".join(problems))
 
 
+def rule_sonar_component(ctx, rep):
+    rep.rule(
+        "R-SONAR-COMPONENT",
+        "SonarLocation takes the file from the Sonar `component` (`<project key>:<path>`) as what follows the LAST colon: project keys "
+        "may themselves contain ':' (Sonar allows it, e.g. `org:project`), so a first-colon split yields `project:path` and every "
+        "finding of the file is silently lost (no such file is ever analysed)",
+        min_instances=1,
+    )
+    fn = ctx.prog.func("core_codemods.sonar.results.SonarLocation.from_json_location")
+    r = ctx.resolver(fn)
+    found = 0
+    for n in walk_no_nested(fn.node):
+        if not (isinstance(n, ast.Subscript) and isinstance(n.value, ast.Call) and isinstance(n.value.func, ast.Attribute)):
+            continue
+        c = n.value
+        meth = c.func.attr
+        if meth not in ("split", "rsplit", "partition", "rpartition"):
+            continue
+        recv = r.expand(c.func.value)
+        if "component" not in unparse(recv):
+            continue
+        sep = c.args[0] if c.args else None
+        if not (isinstance(sep, ast.Constant) and sep.value == ":"):
+            continue
+        found += 1
+        idx = n.slice.value if isinstance(n.slice, ast.Constant) else (-n.slice.operand.value if isinstance(n.slice, ast.UnaryOp) and isinstance(n.slice.op, ast.USub) and isinstance(n.slice.operand, ast.Constant) else None)
+        maxsplit = c.args[1].value if len(c.args) > 1 and isinstance(c.args[1], ast.Constant) else next((k.value.value for k in c.keywords if k.arg == "maxsplit" and isinstance(k.value, ast.Constant)), None)
+        if meth == "split":
+            last = idx == -1 and maxsplit in (None, -1)
+        elif meth == "rsplit":
+            last = idx == -1
+        elif meth == "rpartition":
+            last = idx in (2, -1)
+        else:  # partition: first colon
+            last = False
+        rep.check("R-SONAR-COMPONENT", fn.qname, fn.loc(n), last, "last-colon",
+                  f"`{unparse(n)[:60]}` does not take what follows the last ':' of the component: with a project key containing ':' the path keeps a "
+                  "piece of the key and matches no analysed file")
+    if found == 0:
+        raise AnalysisError("SonarLocation.from_json_location: no ':'-split of the component found (shape not understood)")
+
+
 def check(ctx, rep):
     rep.explanation = (
         "The operator each accumulation loop actually dispatches to is resolved through the ResultSet MRO (including the "
@@ -252,4 +294,5 @@ def check(ctx, rep):
     rule_reader_shape(ctx, rep)
     rule_add_all_locations(ctx, rep)
     rule_merge_no_alias(ctx, rep)
+    rule_sonar_component(ctx, rep)
     rep.not_covered += ["equality of parsed findings with a reference extraction for arbitrary documents", "SARIF tool detection per run"]
